@@ -35,6 +35,7 @@ from .transform import ensure_repo_on_path, repo_root
 
 SEED = int(os.environ.get("VERIF_SEED", "0") or 0)
 THOROUGH = os.environ.get("VERIF_TIER") == "thorough"
+LAZY = os.environ.get("MODEB_NO_LAZY", "") == ""     # reciprocal generators for determinants (see FieldCtx.reciprocal)
 
 ASSUME_SOLVE = ("SOLVE: Quadratic.solve_systems returns the exact solution of the system built by the real build_system "
                 "(eigh exact; the ill-conditioned / truncated branch is not modelled unless the obligation says so)")
@@ -60,14 +61,21 @@ class CaseTimeout(Exception):
 class FieldCtx:
     """The rational function field QQ(names) of one case."""
 
-    def __init__(self, names):
-        names = list(names) + ["SCALE"]
+    NDEN = 4          # reciprocal generators available per case (one per distinct system solved)
+
+    def __init__(self, names, lazy=None):
+        self.lazy = LAZY if lazy is None else lazy
+        self.den_names = [f"iD{i}" for i in range(self.NDEN)]
+        names = list(names) + ["SCALE"] + self.den_names
         if len(set(names)) != len(names):
             raise Unsupported("duplicate generator names")
         res = _field(names, QQ)
         self.K = res[0]
         self.dom = self.K.to_domain()
         self.gens = dict(zip(names, res[1:]))
+        self.index = {nm: i for i, nm in enumerate(names)}
+        self.rel = {}             # generator index of iDk -> polynomial D_k (ring element) with iDk * D_k == 1
+        self._rel_by_poly = {}
         self.scale = Sc(self.gens["SCALE"], self)
         self.zero = Sc(self.K(0), self)
         self.one = Sc(self.K(1), self)
@@ -83,6 +91,65 @@ class FieldCtx:
 
     def const(self, q):
         return Sc(self.lift(q), self)
+
+    # -- reciprocal generators: iDk stands for 1 / D_k, D_k a polynomial free of every iD ---------------------------
+    def reciprocal(self, D):
+        """Field element standing for 1/D (D: non-zero ring element without iD generators)."""
+        if not self.lazy or D.is_ground:
+            return self.K.new(self.K.ring(1), D)
+        if self._has_den_gen(D):
+            raise Unsupported("reciprocal of a polynomial that involves a reciprocal generator")
+        c = D.LC
+        Dm = D.quo_ground(c)                     # monic representative: 1/D = (1/c) * iD
+        gi = self._rel_by_poly.get(Dm)
+        if gi is None:
+            if len(self.rel) >= self.NDEN:
+                raise Unsupported("more distinct linear systems than reciprocal generators (raise FieldCtx.NDEN)")
+            gi = self.index[self.den_names[len(self.rel)]]
+            self.rel[gi] = Dm
+            self._rel_by_poly[Dm] = gi
+        return self.K.new(self.K.ring.gens[gi].mul_ground(QQ(1) / c), self.K.ring(1))
+
+    def _has_den_gen(self, p):
+        ids = [self.index[nm] for nm in self.den_names]
+        return any(m[i] for m in p.keys() for i in ids)
+
+    def is_zero(self, v):
+        """Exact zero test of a field element modulo the relations iDk * D_k == 1."""
+        if v == 0:
+            return True
+        if not self.rel:
+            return False
+        num = v.numer
+        ids = sorted(self.rel)
+        if self._has_den_gen(v.denom):
+            raise Unsupported("reciprocal generator in a denominator")
+        deg = [max(m[i] for m in num.keys()) for i in ids]
+        if not any(deg):
+            return False
+        # num = sum_J c_J(gens) * prod_k iDk^{J_k};  multiply by prod_k D_k^{deg_k}:  sum_J c_J * prod_k D_k^{deg_k - J_k}
+        R = self.K.ring
+        groups = {}
+        for m, c in num.items():
+            J = tuple(m[i] for i in ids)
+            mm = list(m)
+            for i in ids:
+                mm[i] = 0
+            groups.setdefault(J, {})[tuple(mm)] = c
+        pows = {}
+
+        def power(k, e):
+            if (k, e) not in pows:
+                pows[(k, e)] = self.rel[ids[k]] ** e
+            return pows[(k, e)]
+        total = R(0)
+        for J, d in groups.items():
+            term = R.from_dict(d)
+            for k, (dk, jk) in enumerate(zip(deg, J)):
+                if dk - jk:
+                    term = term * power(k, dk - jk)
+            total = total + term
+        return total == 0
 
     def lift(self, o):
         """Exact conversion of a Python / NumPy number into the field (None if `o` is not a number)."""
@@ -146,7 +213,7 @@ class Sc:
         w = self._o(o)
         if w is None:
             return NotImplemented
-        if w == 0:
+        if self.F.is_zero(w):
             raise ZeroDivisionError("division by an identically zero Mode-B scalar")
         return Sc(self.v / w, self.F)
 
@@ -154,7 +221,7 @@ class Sc:
         w = self._o(o)
         if w is None:
             return NotImplemented
-        if self.v == 0:
+        if self.F.is_zero(self.v):
             raise ZeroDivisionError("division by an identically zero Mode-B scalar")
         return Sc(w / self.v, self.F)
 
@@ -171,7 +238,7 @@ class Sc:
         if not isinstance(e, (int, _np.integer)):
             return NotImplemented
         e = int(e)
-        if e < 0 and self.v == 0:
+        if e < 0 and self.F.is_zero(self.v):
             raise ZeroDivisionError("negative power of zero")
         return Sc(self.v ** e, self.F)
 
@@ -183,7 +250,7 @@ class Sc:
 
     def __eq__(self, o):
         w = self._o(o)
-        return False if w is None else bool(self.v == w)
+        return False if w is None else self.F.is_zero(self.v - w)
 
     def __ne__(self, o):
         return not self.__eq__(o)
@@ -196,7 +263,7 @@ class Sc:
     __lt__ = __le__ = __gt__ = __ge__ = _nocmp
 
     def __bool__(self):
-        return bool(self.v != 0)
+        return not self.F.is_zero(self.v)
 
     def __float__(self):
         raise Unsupported("float() of a Mode-B scalar")
@@ -205,20 +272,14 @@ class Sc:
         return str(self.v)
 
     def is_zero(self):
-        return bool(self.v == 0)
+        return self.F.is_zero(self.v)
 
     def diff(self, name):
+        """Partial derivative w.r.t. a generator on which no reciprocal relation depends."""
+        i = self.F.index[name]
+        if any(m[i] for D in self.F.rel.values() for m in D.keys()):
+            raise Unsupported("diff w.r.t. a generator occurring in a solved system")
         return Sc(self.v.diff(self.F.gens[name]), self.F)
-
-    def subs_num(self, mapping):
-        """Value at a rational point {name: Fraction} (all generators not mentioned -> 1)."""
-        pt = []
-        for nm, g in self.F.gens.items():
-            q = mapping.get(nm, Fraction(1))
-            pt.append(QQ(q.numerator, q.denominator))
-        num = self.v.numer.evaluate(list(zip(self.v.numer.ring.gens, pt)))
-        den = self.v.denom.evaluate(list(zip(self.v.denom.ring.gens, pt)))
-        return None if den == 0 else Fraction(int(num.numerator), int(num.denominator)) / Fraction(int(den.numerator), int(den.denominator))
 
 
 def arr(x):
@@ -263,7 +324,7 @@ def all_zero(F, a):
         w = F.lift(a[idx])
         if w is None:
             raise Unsupported(f"non-numeric entry {a[idx]!r} in a Mode-B residual")
-        if w != 0:
+        if not F.is_zero(w):
             return False, f"residual{list(idx)} = {short(w)}"
     return True, None
 
@@ -351,6 +412,83 @@ def _eigh_stub(a, *args, **kw):
 
 
 # ---------------------------------------------------------------------------------------------------------
+# exact inverse over the field, fraction-free
+# ---------------------------------------------------------------------------------------------------------
+def exact_inverse(F, rows, check=True):
+    """Inverse (list of lists of field elements) of a square matrix of field elements.
+
+    Fraction-free: row i is multiplied by the lcm d_i of its denominators, the polynomial matrix P = diag(d) A is inverted
+    by sympy's DomainMatrix.inv_den (P^-1 = Num / den) in the polynomial ring over the generators that actually occur, and
+    A^-1 = Num diag(d) / den is brought back to canonical form entry by entry.  `check`: verify P Num == den I in the ring."""
+    from sympy.polys.rings import PolyRing
+    R = F.K.ring
+    N = len(rows)
+    used = [False] * R.ngens
+
+    def mark(p):
+        for mon in p.keys():
+            for i, e in enumerate(mon):
+                if e:
+                    used[i] = True
+    D, P = [], []
+    for r in rows:
+        d = R(1)
+        for e in r:
+            if e.denom != 1:
+                d = d.lcm(e.denom)
+        D.append(d)
+        pr = [e.numer * d.exquo(e.denom) for e in r]
+        P.append(pr)
+        mark(d)
+        for q in pr:
+            mark(q)
+    idx = [i for i, u in enumerate(used) if u] or [0]
+    from sympy import ZZ
+    from math import lcm
+    small = PolyRing([R.symbols[i] for i in idx], ZZ)     # integer coefficients: much faster than QQ without gmpy
+    for i, pr in enumerate(P):
+        c = 1
+        for q in pr:
+            for co in q.values():
+                c = lcm(c, int(co.denominator))
+        if c != 1:
+            D[i] = D[i].mul_ground(QQ(c))
+            P[i] = [q.mul_ground(QQ(c)) for q in pr]
+
+    def down(p):
+        return small.from_dict({tuple(m[i] for i in idx): ZZ(int(c.numerator)) for m, c in p.items()})
+
+    def up(p):
+        out = {}
+        for m, c in p.items():
+            full = [0] * R.ngens
+            for i, e in zip(idx, m):
+                full[i] = e
+            out[tuple(full)] = QQ(int(c))
+        return R.from_dict(out)
+    dm = DomainMatrix([[down(q) for q in pr] for pr in P], (N, N), small.to_domain())
+    try:
+        num, den = dm.inv_den()
+    except Exception as e:  # DMNonInvertibleMatrixError
+        raise SingularSystem(f"the matrix returned by build_system is singular ({type(e).__name__})")
+    if den == 0:
+        raise SingularSystem("the matrix returned by build_system is singular (zero determinant)")
+    if check:
+        prod = dm * num
+        eye = DomainMatrix.eye(N, small.to_domain()) * den
+        if prod.to_dense() != eye.to_dense():
+            raise Unsupported("exact_inverse: DomainMatrix.inv_den returned a wrong inverse")
+    numl = num.to_dense().rep.to_list() if hasattr(num.to_dense().rep, "to_list") else num.to_dense().rep
+    den_up = up(den)
+    # den = mono * D' with mono the monomial content of den; 1/D' becomes a reciprocal generator (lazy mode), so that all
+    # later arithmetic stays polynomial; the monomial part (powers of SCALE) is cancelled right here
+    mono_exp = [min(m[i] for m in den_up.keys()) for i in range(R.ngens)]
+    mono = R.from_dict({tuple(mono_exp): QQ(1)})
+    rec = F.reciprocal(den_up.exquo(mono))
+    return [[F.K.new(up(numl[i][j]) * D[j], mono) * rec for j in range(N)] for i in range(N)]
+
+
+# ---------------------------------------------------------------------------------------------------------
 # shadow module with the SOLVE contract
 # ---------------------------------------------------------------------------------------------------------
 class Shadow:
@@ -409,20 +547,7 @@ class Shadow:
         H = self._inv_cache.get(key)
         if H is None:
             t0 = time.time()
-            dm = DomainMatrix(rows, (N, N), F.dom)
-            try:
-                inv = dm.inv()
-            except Exception as e:  # DMNonInvertibleMatrixError
-                raise SingularSystem(f"the matrix returned by build_system is singular ({type(e).__name__})")
-            inv = inv.to_dense().rep.to_list() if hasattr(inv.rep, "to_list") else inv.rep
-            if self.check_inverse:
-                for i in range(N):
-                    for j in range(N):
-                        acc = F.K(0)
-                        for k in range(N):
-                            acc = acc + rows[i][k] * inv[k][j]
-                        if acc != (1 if i == j else 0):
-                            raise Unsupported("SOLVE: DomainMatrix.inv returned a wrong inverse")
+            inv = exact_inverse(F, rows, check=self.check_inverse)
             H = _np.empty((N, N), dtype=object)
             for i in range(N):
                 for j in range(N):
@@ -509,23 +634,29 @@ def kkt_matrix(F, X):
 
 
 def det(F, W):
+    """Exact determinant (field element) of a square matrix of field elements (fraction-free when all are polynomials)."""
     N = len(W)
+    if all(e.denom == 1 for r in W for e in r):
+        R = F.K.ring
+        d = DomainMatrix([[e.numer for e in r] for r in W], (N, N), R.to_domain()).det()
+        return F.K.new(d, R(1))
     return DomainMatrix([list(r) for r in W], (N, N), F.dom).det()
 
 
 def spec_solve(F, W, rhs):
-    """Exact solution (list of field elements) of W z = rhs; raises SingularSystem."""
+    """Exact solution (list of field elements) of W z = rhs; raises SingularSystem if W is singular (set not poised)."""
     N = len(W)
     try:
-        inv = DomainMatrix([list(r) for r in W], (N, N), F.dom).inv()
-    except Exception as e:
-        raise SingularSystem(f"specification KKT matrix singular ({type(e).__name__}): interpolation set not poised")
-    inv = inv.to_dense().rep.to_list() if hasattr(inv.rep, "to_list") else inv.rep
+        inv = exact_inverse(F, W, check=False)
+    except SingularSystem:
+        raise SingularSystem("specification KKT matrix singular: interpolation set not poised")
     out = []
     for i in range(N):
         acc = F.K(0)
         for j in range(N):
-            acc = acc + inv[i][j] * F.lift(rhs[j])
+            w = F.lift(rhs[j])
+            if w != 0:
+                acc = acc + inv[i][j] * w
         out.append(acc)
     return out
 
@@ -568,6 +699,18 @@ def rational_geometry(label, n, npt, tries=200):
         if det(Fq, kkt_matrix(Fq, Xa)) != 0:
             return xb, X
     raise Unsupported(f"no poised rational geometry found for {label}")
+
+
+def geometry_names(n, npt, symbolic):
+    return names_vec("b", n) + names_mat("p", n, npt) if symbolic else []
+
+
+def geometry(F, label, n, npt, symbolic):
+    """(x_base, xpt) as object arrays of Sc: all entries symbols (b_i, p_i_k) or a seeded generic rational sample."""
+    if symbolic:
+        return F.vec("b", n), F.mat("p", n, npt)
+    xb, X = rational_geometry(label, n, npt)
+    return lift_array(F, xb), lift_array(F, X)
 
 
 def rational_vector(label, n):
